@@ -1,9 +1,21 @@
 import CfdpVerif.Props.C14
+import CfdpVerif.Props.C03
 /-!
 # C13 — unacknowledged transfers tolerate EOF overtaking file data up to the check limit
 
 Model: receiver `noErrorEofVerify` (second half of `_handle_no_error_eof`), `checkLimitHandling`,
 `checksumVerify`; sender `handleWaitForFinish` (check timer of a closure request).
+
+One-step contracts first; then WHOLE RUNS of the receiver model, for every file, segment length,
+position of the late tile (any but the last), header configuration, CRC checksum type, check limit and
+expiry times (unacknowledged mode without closure): `C13_late_data_completes` — Metadata, all tiles
+but one, the EOF (no completion), any number of expiries below the limit (each only counts,
+`C13_expiries_below_limit` by induction over the expiry times), the late tile, the next expiry:
+complete, file byte-identical, one successful Transaction-Finished, idle — and
+`C13_never_arrives_limit` — the first `limit − 1` expiries only count, the limit-th declares Check
+limit reached, the transaction is cancelled and reported incomplete, idle.  The stored file with the
+hole must not collide with the announced checksum (`MismatchOf`; a collision is a completed transfer,
+which the property — and C01 — accept).
 -/
 set_option linter.unusedSimpArgs false
 set_option linter.unusedVariables false
@@ -116,5 +128,623 @@ theorem C13_source_closure_timer_running (env : Source.Env) (s : Source.SrcSt) (
     (htm : s.p.checkTimer = some tm) (hexp : tm.timedOut env.now = false) :
     Source.handleWaitForFinish env none s = .ok () s := by
   msimp [Source.handleWaitForFinish, Source.transmissionMode, hb, hm, Source.getP, htm, hexp]
+
+section WholeRuns
+open Cfdp.Dest Cfdp.C02
+
+/-! ## Whole runs of the receiver: EOF overtakes file data (unacknowledged mode, no closure) -/
+
+/-- the stored content `G` does not have the checksum `crc` announced by the EOF -/
+def MismatchOf (cks : Nat) (G crc : List UInt8) : Prop :=
+  cks ≠ 15 ∧ ∃ c, Checksum.calcChecksum (Checksum.CksType.ofNat cks) G G.length 4096 = .ok c ∧ c ≠ crc
+
+/-- receiver waiting in the check-limit procedure: EOF received, stored content `G`, check timer `tm`,
+`c` expiries so far -/
+structure CheckWait (d : DestSt) (dst : String) (G crc : List UInt8) (rc : RemoteCfg) (t : Tid) (cks : Nat)
+    (tm : Timer) (c : Nat) : Prop where
+  hbusy : d.state = .busy
+  hstep : d.step = .RECV_FILE_DATA_WITH_CHECK_LIMIT_HANDLING
+  hready : d.numReady = 0
+  hqueue : d.queue = []
+  hmode : d.p.conf.mode = .unack
+  hname : d.p.fileName = dst
+  hfile : d.fs.get dst = some (.file G)
+  hprog : d.p.progress = G.length
+  hcrc : d.p.crc32 = crc
+  hfse : d.p.fileSizeEof = some G.length
+  hrc : d.p.remoteCfg = some rc
+  htid : d.p.tid = some t
+  hrej : d.rejects = []
+  hcks : d.p.cksType = cks
+  hclosure : d.p.closure = false
+  hcancel : d.p.canceled = false
+  hmo : d.p.metadataOnly = false
+  hfin : d.p.fin = ⟨ccNoError, dcIncomplete, fsRetained, none⟩
+  htm : d.p.checkTimer = some tm
+  hcnt : d.p.checkCount = c
+  hfh1 : d.faults.lookup ccChecksumFailure = some fhIgnore
+  hfh2 : d.faults.lookup ccCheckLimit = some fhCancel
+
+theorem mismatch_of (d : DestSt) (dst : String) (G crc : List UInt8) (cks : Nat)
+    (hname : d.p.fileName = dst) (hfile : d.fs.get dst = some (.file G)) (hprog : d.p.progress = G.length)
+    (hcks : d.p.cksType = cks) (hcrc : d.p.crc32 = crc) (hmo : d.p.metadataOnly = false)
+    (hm : MismatchOf cks G crc) : ∃ c, Mismatch d c := by
+  obtain ⟨h1, c, h2, h3⟩ := hm
+  have hnull : Checksum.CksType.ofNat cks ≠ .null := by
+    intro h
+    simp [Checksum.CksType.ofNat] at h
+    split at h <;> simp_all
+  refine ⟨c, by rw [hcks]; exact h1, hmo, ?_, by rw [hcrc]; exact h3⟩
+  rw [hcks, hname, hprog]
+  simp [Fs.calcChecksum, hnull, hfile, h2]
+
+def waitP (p : Params) (crc : List UInt8) (size now ms : Nat) : Params :=
+  { p with crc32 := crc, fileSizeEof := some size, checkTimer := some ⟨now, ms⟩, checkCount := 0 }
+
+/-- state after an EOF that arrived before all file data -/
+def afterEofWait (env : Env) (d : DestSt) (t : Tid) (crc : List UInt8) (size : Nat) : DestSt :=
+  { d with step := .RECV_FILE_DATA_WITH_CHECK_LIMIT_HANDLING, p := waitP d.p crc size env.now env.cfg.chkMs,
+           inds := d.inds ++ (if env.cfg.indEofRecv then [.eofRecv t] else []),
+           flts := d.flts ++ [⟨fhIgnore, t, ccChecksumFailure, d.p.progress⟩] }
+
+/-- **EOF before all file data (whole call).**  The stored content has the EOF's size but not its
+checksum: the call does not finish the transaction; the check timer is started, the counter is 0, the
+checksum failure is reported once (ignored), nothing is queued -/
+theorem C13_eof_call_waits (env : Env) (d : DestSt) (dst : String) (G crc : List UInt8) (rc : RemoteCfg) (t : Tid)
+    (cks : Nat) (h : Hdr) (hr : Receiving d dst G rc t cks false) (ha : Admissible env rc h)
+    (hmis : MismatchOf cks G crc) (hchk : env.cfg.chkMs ≠ 0)
+    (hfh1 : d.faults.lookup ccChecksumFailure = some fhIgnore) (hfh2 : d.faults.lookup ccCheckLimit = some fhCancel) :
+    stateMachine env (some (.eof h ccNoError crc G.length none)) d = .ok () (afterEofWait env d t crc G.length) ∧
+    CheckWait (afterEofWait env d t crc G.length) dst G crc rc t cks ⟨env.now, env.cfg.chkMs⟩ 0 := by
+  obtain ⟨h1, c, h2, h3⟩ := hmis
+  have hnull : Checksum.CksType.ofNat cks ≠ .null := by
+    intro hh
+    simp [Checksum.CksType.ofNat] at hh
+    split at hh <;> simp_all
+  have hc : Fs.calcChecksum d.fs (Checksum.CksType.ofNat cks) dst G.length 4096 = .ok c := by
+    simp [Fs.calcChecksum, hnull, hr.hfile, h2]
+  have hnlt : ¬ G.length < G.length := by omega
+  have hpos : 0 < env.cfg.chkMs := by omega
+  constructor
+  · cases hi : env.cfg.indEofRecv <;>
+    msimp [stateMachine, stateMachineWith, checkInsertedPacket, Pdu.hdr, ha.hdir, ha.hdst, ha.hsrc, Pdu.kind,
+      Route.getPacketDestination, hr.hbusy, transmissionMode, hr.hmode, nonIdleFsm,
+      fsmAdvancementAfterPacketsWereSent, hr.hqueue, hr.hstep, fsmFromReceiving, handleFdOrEofPdu, handleEofPdu,
+      modP, hi, getP, hr.htid, emitInd, handleNoErrorEof, hr.hprog, hnlt, noErrorEofVerify, checksumVerify,
+      hr.hcks, h1, hr.hmo, hr.hname, hc, h3, declareFault, hfh1, fhIgnore, fhCancel, fhAbandon,
+      startCheckLimitHandling, assertThat, hr.hrc,
+      fsmFromWaitingForMetadata, fsmFromCheckLimit, checkLimitHandling, Timer.timedOut, hchk, hpos,
+      fsmFromWaitingForMissingData, fsmFromTransferCompletion,
+      fsmFromSendingFinishedPdu, fsmFromWaitingForFinishedAck,
+      afterEofWait, waitP, hr.hfin, ccNoError, dtEof]
+  · exact
+      { hbusy := hr.hbusy, hstep := rfl, hready := hr.hready, hqueue := hr.hqueue, hmode := hr.hmode,
+        hname := hr.hname, hfile := hr.hfile, hprog := hr.hprog, hcrc := rfl, hfse := rfl, hrc := hr.hrc,
+        htid := hr.htid, hrej := hr.hrej, hcks := hr.hcks, hclosure := hr.hclosure, hcancel := hr.hcancel,
+        hmo := hr.hmo, hfin := hr.hfin, htm := rfl, hcnt := rfl, hfh1 := hfh1, hfh2 := hfh2 }
+
+def retryP (p : Params) (now : Nat) (tm : Timer) : Params :=
+  { p with checkCount := p.checkCount + 1, checkTimer := some ⟨now, tm.timeout⟩ }
+
+def afterRetry (d : DestSt) (now : Nat) (tm : Timer) (t : Tid) : DestSt :=
+  { d with p := retryP d.p now tm, flts := d.flts ++ [⟨fhIgnore, t, ccChecksumFailure, d.p.progress⟩] }
+
+/-- **An expiry below the limit with the data still missing (whole call)**: the counter grows by
+one, the timer restarts, the checksum failure is reported (ignored); nothing else happens -/
+theorem C13_expiry_retry_call (env : Env) (d : DestSt) (dst : String) (G crc : List UInt8) (rc : RemoteCfg)
+    (t : Tid) (cks : Nat) (tm : Timer) (c : Nat) (hr : CheckWait d dst G crc rc t cks tm c)
+    (hmis : MismatchOf cks G crc) (hexp : tm.timedOut env.now = true) (hlim : c + 1 < rc.chkLim) :
+    stateMachine env none d = .ok () (afterRetry d env.now tm t) ∧
+    CheckWait (afterRetry d env.now tm t) dst G crc rc t cks ⟨env.now, tm.timeout⟩ (c + 1) := by
+  obtain ⟨cc, hm⟩ := mismatch_of d dst G crc cks hr.hname hr.hfile hr.hprog hr.hcks hr.hcrc hr.hmo hmis
+  have hcall := C13_expiry_retry env d tm rc cc t hr.htm hr.hrc hexp hm hr.htid hr.hbusy hr.hfh1
+    (by rw [hr.hcnt]; exact hlim)
+  constructor
+  · unfold stateMachine
+    generalize (stateMachineWith env none (stateMachineWith env none (throw Err.recursionError))) = rec
+    msimp [stateMachineWith, hr.hbusy, nonIdleFsm, fsmAdvancementAfterPacketsWereSent, hr.hqueue, hr.hstep,
+      fsmFromReceiving, fsmFromWaitingForMetadata, fsmFromCheckLimit, hcall, fsmFromWaitingForMissingData,
+      fsmFromTransferCompletion, fsmFromSendingFinishedPdu, fsmFromWaitingForFinishedAck, afterRetry, retryP]
+  · exact
+      { hbusy := hr.hbusy, hstep := hr.hstep, hready := hr.hready, hqueue := hr.hqueue, hmode := hr.hmode,
+        hname := hr.hname, hfile := hr.hfile, hprog := hr.hprog, hcrc := hr.hcrc, hfse := hr.hfse, hrc := hr.hrc,
+        htid := hr.htid, hrej := hr.hrej, hcks := hr.hcks, hclosure := hr.hclosure, hcancel := hr.hcancel,
+        hmo := hr.hmo, hfin := hr.hfin, htm := rfl, hcnt := by simp [afterRetry, retryP, hr.hcnt],
+        hfh1 := hr.hfh1, hfh2 := hr.hfh2 }
+
+/-- the receiver called at each of the given times (no PDU), nothing to retrieve -/
+def checkRounds (cfg : LocalCfg) : List Nat → DestSt → Option DestSt
+  | [], d => some d
+  | t :: ts, d =>
+    match stateMachine ⟨cfg, t⟩ none d with
+    | .error _ _ => none
+    | .ok _ d' => checkRounds cfg ts d'
+
+/-- **Any number of expiries below the check limit, data still missing**: each one adds one to the
+counter, restarts the timer and reports the checksum failure; file, queue, indications untouched -/
+theorem C13_expiries_below_limit (cfg : LocalCfg) (dst : String) (G crc : List UInt8) (rc : RemoteCfg) (t : Tid)
+    (cks : Nat) (hmis : MismatchOf cks G crc) :
+    ∀ (times : List Nat) (d : DestSt) (tm : Timer) (c : Nat),
+      CheckWait d dst G crc rc t cks tm c → C04.Expiring tm.timeout tm.start times → c + times.length < rc.chkLim →
+      ∃ d', checkRounds cfg times d = some d' ∧
+        CheckWait d' dst G crc rc t cks ⟨C04.lastOr tm.start times, tm.timeout⟩ (c + times.length) ∧
+        d'.fs = d.fs ∧ d'.inds = d.inds ∧
+        d'.flts = d.flts ++ List.replicate times.length ⟨fhIgnore, t, ccChecksumFailure, G.length⟩ := by
+  intro times
+  induction times with
+  | nil =>
+    intro d tm c hr _ _
+    exact ⟨d, rfl, by simpa [C04.lastOr] using hr, rfl, rfl, by simp⟩
+  | cons x xs ih =>
+    intro d tm c hr hexp hlim
+    simp only [C04.Expiring] at hexp
+    simp only [List.length_cons] at hlim
+    obtain ⟨hcall, hW⟩ := C13_expiry_retry_call ⟨cfg, x⟩ d dst G crc rc t cks tm c hr hmis
+      (by simp [Timer.timedOut]; exact hexp.1) (by omega)
+    obtain ⟨d', hrest, hW', hfs, hin, hfl⟩ := ih (afterRetry d x tm t) ⟨x, tm.timeout⟩ (c + 1) hW hexp.2 (by omega)
+    refine ⟨d', ?_, ?_, ?_, ?_, ?_⟩
+    · simp only [checkRounds, hcall, hrest]
+    · have : c + 1 + xs.length = c + (xs.length + 1) := by omega
+      simpa [C04.lastOr, this] using hW'
+    · rw [hfs]; rfl
+    · rw [hin]; rfl
+    · rw [hfl]
+      simp [afterRetry, hr.hprog, List.replicate_succ]
+
+def fillP (p : Params) (n : Nat) : Params := { p with progress := n }
+
+/-- state after the late data arrived during the check-limit procedure (timer not expired) -/
+def afterLate (d : DestSt) (dst : String) (F : List UInt8) (a n : Nat) (env : Env) (t : Tid) : DestSt :=
+  { d with fs := d.fs.set dst (.file F), p := fillP d.p F.length,
+           inds := d.inds ++ (if env.cfg.indSegRecv then [.segRecv (some t) a n] else []) }
+
+/-- **The late File Data PDU arrives while the receiver waits** (timer running): it is stored — the
+hole is filled —, nothing else changes; the verification happens at the next expiry -/
+theorem C13_late_tile_call (env : Env) (d : DestSt) (dst : String) (F crc : List UInt8) (a b : Nat)
+    (rc : RemoteCfg) (t : Tid) (cks : Nat) (tm : Timer) (c : Nat) (h : Hdr)
+    (hr : CheckWait d dst (C03.holeFile F a b F.length) crc rc t cks tm c) (ha : Admissible env rc h)
+    (hab : a < b) (hb : b ≤ F.length) (hrun : tm.timedOut env.now = false) :
+    stateMachine env (some (.fd h a ((F.drop a).take (b - a)))) d = .ok () (afterLate d dst F a (b - a) env t) ∧
+    CheckWait (afterLate d dst F a (b - a) env t) dst F crc rc t cks tm c := by
+  have hlenG := C03.holeFile_length F a b F.length (by omega) hb (Nat.le_refl _)
+  have hw := C03.write_fills_hole F a b hab hb
+  have hdl : ((F.drop a).take (b - a)).length = b - a := by simp [List.length_take, List.length_drop]; omega
+  have hprog : d.p.progress = F.length := by rw [hr.hprog, hlenG]
+  have hfse : d.p.fileSizeEof = some F.length := by rw [hr.hfse, hlenG]
+  have hnsz : ¬ a + (b - a) > F.length := by omega
+  have hmax : max (a + (b - a)) F.length = F.length := by omega
+  constructor
+  · unfold stateMachine
+    generalize (stateMachineWith env none (stateMachineWith env none (throw Err.recursionError))) = rec
+    cases hi : env.cfg.indSegRecv <;>
+    msimp [stateMachineWith, checkInsertedPacket, Pdu.hdr, ha.hdir, ha.hdst, ha.hsrc, Pdu.kind,
+      Route.getPacketDestination, hr.hbusy, transmissionMode, hr.hmode, nonIdleFsm,
+      fsmAdvancementAfterPacketsWereSent, hr.hqueue, hr.hstep, fsmFromReceiving, handleFdOrEofPdu, handleFdPdu,
+      fdIndication, hi, getP, emitInd, hr.htid, fdLostSegments, fdWrite, vfsWriteData, hr.hrej, hr.hname,
+      Fs.writeData, hr.hfile, hw, hdl, fdAfterWrite, sizeErrOf, modP, hfse, hprog, hnsz, hmax,
+      fsmFromWaitingForMetadata,
+      fsmFromCheckLimit, checkLimitHandling, hr.htm, hr.hrc, hrun, fsmFromWaitingForMissingData,
+      fsmFromTransferCompletion, fsmFromSendingFinishedPdu,
+      fsmFromWaitingForFinishedAck, afterLate, fillP, hr.hfin]
+  · exact
+      { hbusy := hr.hbusy, hstep := hr.hstep, hready := hr.hready, hqueue := hr.hqueue, hmode := hr.hmode,
+        hname := hr.hname, hfile := by simp [afterLate, Fs.C17.get_set_same],
+        hprog := rfl, hcrc := hr.hcrc,
+        hfse := by show d.p.fileSizeEof = some F.length; exact hfse, hrc := hr.hrc,
+        htid := hr.htid, hrej := hr.hrej, hcks := hr.hcks, hclosure := hr.hclosure, hcancel := hr.hcancel,
+        hmo := hr.hmo, hfin := hr.hfin, htm := hr.htm, hcnt := hr.hcnt, hfh1 := hr.hfh1, hfh2 := hr.hfh2 }
+
+/-- state after the expiry at which the file was complete: transaction finished, handler idle -/
+def afterSuccess (env : Env) (d : DestSt) (t : Tid) : DestSt :=
+  { d with state := .idle, step := .IDLE, p := {},
+           inds := d.inds ++ (if env.cfg.indFinished
+             then [.finished (some t) ⟨ccNoError, dcComplete, fsRetained, none⟩] else []) }
+
+/-- **The expiry after the late data arrived (whole call)**: the checksum matches; the transaction
+completes in that call — Transaction-Finished (No error, Data complete, File retained) —, the handler
+is idle, the file untouched -/
+theorem C13_expiry_success_call (env : Env) (d : DestSt) (dst : String) (F crc : List UInt8) (rc : RemoteCfg)
+    (t : Tid) (cks : Nat) (tm : Timer) (c : Nat) (hr : CheckWait d dst F crc rc t cks tm c)
+    (hexp : tm.timedOut env.now = true) (hnull : cks ≠ 15)
+    (hok : Checksum.calcChecksum (Checksum.CksType.ofNat cks) F F.length 4096 = .ok crc) :
+    stateMachine env none d = .ok () (afterSuccess env d t) := by
+  have hn : Checksum.CksType.ofNat cks ≠ .null := by
+    intro hh
+    simp [Checksum.CksType.ofNat] at hh
+    split at hh <;> simp_all
+  have hm : Match d := by
+    refine ⟨by rw [hr.hcks]; exact hnull, hr.hmo, ?_⟩
+    rw [hr.hcks, hr.hname, hr.hprog, hr.hcrc]
+    simp [Fs.calcChecksum, hn, hr.hfile, hok]
+  have hcall := C13_expiry_success env d tm rc hr.hbusy hr.hmode hr.htm hr.hrc hexp hm
+  unfold stateMachine
+  generalize (stateMachineWith env none (stateMachineWith env none (throw Err.recursionError))) = rec
+  cases hf : env.cfg.indFinished <;>
+  msimp [stateMachineWith, hr.hbusy, nonIdleFsm, fsmAdvancementAfterPacketsWereSent, hr.hqueue, hr.hstep,
+    fsmFromReceiving, fsmFromWaitingForMetadata, fsmFromCheckLimit, hcall, fsmFromWaitingForMissingData,
+    fsmFromTransferCompletion, handleTransferCompletion, noticeOfCompletion, hr.hcancel, hf, getP, emitInd, hr.htid,
+    transmissionMode, hr.hmode, hr.hclosure, resetInternal, fsmFromSendingFinishedPdu, fsmFromWaitingForFinishedAck,
+    afterSuccess, hr.hfin]
+
+def limP (p : Params) : Params := { p with fin := { p.fin with cond := ccCheckLimit }, canceled := true }
+
+def limitSt (d : DestSt) (t : Tid) : DestSt :=
+  { d with step := .TRANSFER_COMPLETION, p := limP d.p,
+           flts := d.flts ++ [⟨fhIgnore, t, ccChecksumFailure, d.p.progress⟩,
+                              ⟨fhCancel, t, ccCheckLimit, d.p.progress⟩] }
+
+/-- state after the expiry at which the check limit was reached: the transaction is cancelled with
+Check-limit-reached, reported as incomplete, the handler is idle; with the disposition-on-cancellation
+switch of the remote configuration the incomplete file is deleted -/
+def afterLimit (env : Env) (d : DestSt) (t : Tid) (rc : RemoteCfg) : DestSt :=
+  { d with state := .idle, step := .IDLE, p := {},
+           fs := if rc.disp then (Fs.deleteFile d.fs d.p.fileName).2 else d.fs,
+           inds := d.inds ++ (if env.cfg.indFinished
+             then [.finished (some t) ⟨ccCheckLimit, dcIncomplete,
+               if rc.disp then fsDiscardedDeliberately else fsRetained, none⟩] else []),
+           flts := d.flts ++ [⟨fhIgnore, t, ccChecksumFailure, d.p.progress⟩,
+                              ⟨fhCancel, t, ccCheckLimit, d.p.progress⟩] }
+
+/-- **The expiry at which the counter reaches the limit, data still missing (whole call)**:
+Check-limit-reached is declared, the (default) handler cancels the transaction, the user is told
+(condition Check limit reached, Data incomplete), the handler is idle -/
+theorem C13_expiry_limit_call (env : Env) (d : DestSt) (dst : String) (G crc : List UInt8) (rc : RemoteCfg)
+    (t : Tid) (cks : Nat) (tm : Timer) (c : Nat) (hr : CheckWait d dst G crc rc t cks tm c)
+    (hmis : MismatchOf cks G crc) (hexp : tm.timedOut env.now = true) (hlim : c + 1 ≥ rc.chkLim) :
+    stateMachine env none d = .ok () (afterLimit env d t rc) := by
+  obtain ⟨cc, hm⟩ := mismatch_of d dst G crc cks hr.hname hr.hfile hr.hprog hr.hcks hr.hcrc hr.hmo hmis
+  have hcall := C13_expiry_limit env d tm rc cc t hr.htm hr.hrc hexp hm hr.htid hr.hbusy hr.hfh1
+    (by rw [hr.hcnt]; exact hlim)
+  have hcan := C14.C14_dest_cancel
+    { d with flts := d.flts ++ [(⟨fhIgnore, t, ccChecksumFailure, d.p.progress⟩ : FaultCb)] } ccCheckLimit t hr.htid
+    hr.hfh2 (by simp [C14.Dest.inCancelExchange, hr.hcancel])
+  have hboth : checkLimitHandling env d = .ok () (limitSt d t) := by
+    rw [hcall]
+    show (declareFault ccCheckLimit >>= fun _ => pure ()) _ = _
+    simp only [bind, EStateM.bind, hcan]
+    simp [limitSt, limP, pure, EStateM.pure]
+  unfold stateMachine
+  generalize (stateMachineWith env none (stateMachineWith env none (throw Err.recursionError))) = rec
+  cases hf : env.cfg.indFinished <;> cases hd : rc.disp <;>
+  msimp [stateMachineWith, hr.hbusy, nonIdleFsm, fsmAdvancementAfterPacketsWereSent, hr.hqueue, hr.hstep,
+    fsmFromReceiving, fsmFromWaitingForMetadata, fsmFromCheckLimit, hboth, limitSt, limP, fsmFromWaitingForMissingData,
+    fsmFromTransferCompletion, handleTransferCompletion, noticeOfCompletion, hr.hrc, hd, hf, getP, emitInd, hr.htid,
+    transmissionMode, hr.hmode, hr.hclosure, resetInternal, fsmFromSendingFinishedPdu, fsmFromWaitingForFinishedAck,
+    afterLimit, hr.hfin, dcIncomplete, hr.hname]
+
+/-! ### the run up to the EOF: one File Data PDU is late -/
+
+/-- state after a File Data PDU behind a gap (unacknowledged mode: no bookkeeping, a zero-filled hole) -/
+def afterGapU (d : DestSt) (dst : String) (F : List UInt8) (a b m n : Nat) (env : Env) (t : Tid) : DestSt :=
+  { d with fs := d.fs.set dst (.file (C03.holeFile F a b m)),
+           p := { d.p with progress := m },
+           inds := d.inds ++ (if env.cfg.indSegRecv then [.segRecv (some t) b n] else []) }
+
+/-- **The tile after a missing one (unacknowledged mode)** is stored behind a zero-filled hole -/
+theorem C13_gap_tile_unack (env : Env) (d : DestSt) (dst : String) (F : List UInt8) (a b n : Nat) (rc : RemoteCfg)
+    (t : Tid) (cks : Nat) (h : Hdr) (cl : Bool) (hr : Receiving d dst (F.take a) rc t cks cl) (ha : Admissible env rc h)
+    (hab : a < b) (hb : b < F.length) (hn : 0 < n) :
+    stateMachine env (some (.fd h b ((F.drop b).take n))) d =
+      .ok () (afterGapU d dst F a b (min (b + n) F.length) (min n (F.length - b)) env t) ∧
+    Receiving (afterGapU d dst F a b (min (b + n) F.length) (min n (F.length - b)) env t) dst
+      (C03.holeFile F a b (min (b + n) F.length)) rc t cks cl := by
+  have hla : (F.take a).length = a := by simp [List.length_take]; omega
+  have hw := C03.write_creates_hole F a b n hab hb hn
+  have hdl : ((F.drop b).take n).length = min n (F.length - b) := by simp [List.length_take, List.length_drop]
+  have hmin : b + min n (F.length - b) = min (b + n) F.length := by omega
+  have hmax : max (b + min n (F.length - b)) a = min (b + n) F.length := by omega
+  have hlenH := C03.holeFile_length F a b (min (b + n) F.length) (by omega) (by omega) (Nat.min_le_right _ _)
+  constructor
+  · cases hi : env.cfg.indSegRecv <;>
+    msimp [stateMachine, stateMachineWith, checkInsertedPacket, Pdu.hdr, ha.hdir, ha.hdst, ha.hsrc, Pdu.kind,
+      Route.getPacketDestination, hr.hbusy, transmissionMode, hr.hmode, nonIdleFsm,
+      fsmAdvancementAfterPacketsWereSent, hr.hqueue, hr.hstep, fsmFromReceiving, handleFdOrEofPdu, handleFdPdu,
+      fdIndication, hi, getP, emitInd, hr.htid, fdLostSegments, fdWrite, vfsWriteData, hr.hrej, hr.hname,
+      Fs.writeData, hr.hfile, hw, hdl, fdAfterWrite, sizeErrOf, modP, hr.hnoEof, hr.hprog, hla, hmax, hmin,
+      fsmFromWaitingForMetadata,
+      fsmFromCheckLimit, fsmFromWaitingForMissingData, fsmFromTransferCompletion, fsmFromSendingFinishedPdu,
+      fsmFromWaitingForFinishedAck, afterGapU, hr.hfin] <;> omega
+  · exact { hbusy := hr.hbusy, hstep := hr.hstep, hready := hr.hready, hqueue := hr.hqueue, hmode := hr.hmode,
+            hname := hr.hname, hfile := by simp [afterGapU, Fs.C17.get_set_same],
+            hprog := by simp [afterGapU, hlenH], hnoEof := hr.hnoEof, hrc := hr.hrc, htid := hr.htid,
+            hrej := hr.hrej, hcks := hr.hcks, hclosure := hr.hclosure, hcancel := hr.hcancel, hmo := hr.hmo,
+            hflts := hr.hflts, hfin := hr.hfin }
+
+theorem holeFile_append (F : List UInt8) (a b m n : Nat) (hab : a ≤ b) (hbm : b ≤ m) (hm : m < F.length) (hn : 0 < n) :
+    C03.holeFile F a b m ++ (F.drop m).take n = C03.holeFile F a b (min (m + n) F.length) := by
+  have hlen := C03.holeFile_length F a b m hab hbm (by omega)
+  have hw := C03.write_extends_hole F a b m n hab hbm hm hn
+  have hne : ((F.drop m).take n).isEmpty = false := by
+    cases h : (F.drop m).take n with
+    | nil =>
+      have := congrArg List.length h
+      simp [List.length_take, List.length_drop] at this; omega
+    | cons _ _ => rfl
+  rw [← hw]
+  have h1 : (C03.holeFile F a b m).take m = C03.holeFile F a b m := List.take_of_length_le (by omega)
+  have h2 : (C03.holeFile F a b m).drop (m + ((F.drop m).take n).length) = [] :=
+    List.drop_of_length_le (by omega)
+  simp only [Fs.writeBytes, hne, hlen, Nat.lt_irrefl, gt_iff_lt, ite_false, Bool.false_eq_true, h1, h2,
+    List.append_nil]
+
+/-- the tiles behind the hole, unacknowledged mode: `k` of them in order -/
+theorem C13_tiles_behind_hole_unack (env : Env) (h : Hdr) (rc : RemoteCfg) (t : Tid) (cks : Nat) (dst : String)
+    (cl : Bool) (F : List UInt8) (a b seg : Nat) (hab : a < b) (hseg : 0 < seg) (ha : Admissible env rc h) :
+    ∀ (k m : Nat) (d : DestSt), b ≤ m → m ≤ F.length → (k = 0 ∨ m + (k - 1) * seg < F.length) →
+      Receiving d dst (C03.holeFile F a b m) rc t cks cl →
+      ∃ d', C03.feedSeg env h F seg k m d = some d' ∧
+        Receiving d' dst (C03.holeFile F a b (min (m + k * seg) F.length)) rc t cks cl ∧
+        (∀ q, q ≠ dst → d'.fs.get q = d.fs.get q) ∧
+        d'.inds.filter isFinished = d.inds.filter isFinished ∧ d'.faults = d.faults := by
+  intro k
+  induction k with
+  | zero =>
+    intro m d hbm hm _ hr
+    exact ⟨d, rfl, by simpa [Nat.min_eq_left hm] using hr, fun _ _ => rfl, rfl, rfl⟩
+  | succ k ih =>
+    intro m d hbm hmle hk hr
+    have hmlt : m < F.length := by
+      rcases hk with h0 | h0
+      · omega
+      · have : m ≤ m + (k + 1 - 1) * seg := Nat.le_add_right _ _
+        omega
+    have hlen := C03.holeFile_length F a b m (by omega) hbm hmle
+    have hdata : (F.drop m).take seg ≠ [] := by
+      intro h0
+      have := congrArg List.length h0
+      simp [List.length_take, List.length_drop] at this; omega
+    obtain ⟨hcall, hr'⟩ := C02_tile env d dst (C03.holeFile F a b m) ((F.drop m).take seg) rc t cks h cl hr ha hdata
+    rw [hlen] at hcall
+    rw [holeFile_append F a b m seg (by omega) hbm hmlt hseg] at hr'
+    have hk' : k = 0 ∨ min (m + seg) F.length + (k - 1) * seg < F.length := by
+      by_cases h0 : k = 0
+      · exact Or.inl h0
+      · right
+        have h1 := hk.resolve_left (by omega)
+        simp only [Nat.add_sub_cancel] at h1
+        have h2 : k = (k - 1) + 1 := by omega
+        rw [h2, Nat.add_mul, Nat.one_mul] at h1
+        have : min (m + seg) F.length ≤ m + seg := Nat.min_le_left _ _
+        omega
+    obtain ⟨d', hf, hR, hother, hfin, hfa⟩ := ih (min (m + seg) F.length) _ (by omega) (Nat.min_le_right _ _) hk' hr'
+    refine ⟨d', ?_, ?_, ?_, ?_, ?_⟩
+    · simp only [C03.feedSeg, hcall]; exact hf
+    · have : min (min (m + seg) F.length + k * seg) F.length = min (m + (k + 1) * seg) F.length := by
+        rw [Nat.add_mul, Nat.one_mul]; omega
+      rw [← this]; exact hR
+    · intro q hq
+      rw [hother q hq]
+      simp [afterTile, Fs.C17.get_set_other _ _ _ _ hq]
+    · rw [hfin]
+      simp only [afterTile]
+      split <;> simp [isFinished]
+    · rw [hfa]; rfl
+
+theorem feed_keeps_faults (env : Env) (h : Hdr) (rc : RemoteCfg) (t : Tid) (cks : Nat) (dst : String) (cl : Bool)
+    (ha : Admissible env rc h) :
+    ∀ (cs : List (List UInt8)) (P : List UInt8) (d d' : DestSt), (∀ c ∈ cs, c ≠ []) →
+      Receiving d dst P rc t cks cl → feed env h cs P.length d = some d' → d'.faults = d.faults := by
+  intro cs
+  induction cs with
+  | nil => intro P d d' _ _ hf; simp [feed] at hf; rw [hf]
+  | cons c cs ih =>
+    intro P d d' hne hr hf
+    have hc : c ≠ [] := hne c (by simp)
+    obtain ⟨hcall, hr'⟩ := C02_tile env d dst P c rc t cks h cl hr ha hc
+    simp only [feed, hcall] at hf
+    have := ih (P ++ c) _ d' (fun x hx => hne x (by simp [hx])) hr' (by simpa using hf)
+    rw [this]; rfl
+
+/-- **The run up to the EOF with one File Data PDU missing** (unacknowledged mode, no closure): the
+receiver ends in the check-limit procedure with the timer started at the EOF call, counter 0, one
+(ignored) checksum failure reported, no Transaction-Finished indication -/
+theorem C13_run_to_wait (env : Env) (d0 : DestSt) (h : Hdr) (rc : RemoteCfg) (cks : Nat)
+    (sname dname : String) (msgs : Option (List Msg)) (F crc : List UInt8)
+    (cs1 : List (List UInt8)) (a b seg k : Nat)
+    (ha : Admissible env rc h) (hchk : env.cfg.chkMs ≠ 0)
+    (hidle : d0.state = .idle) (hq : d0.queue = []) (hr : d0.numReady = 0) (hrej : d0.rejects = [])
+    (hfl : d0.flts = []) (hnd : Fs.isDir d0.fs dname = false)
+    (hok : (∃ old, d0.fs.get dname = some (.file old)) ∨
+           (Fs.exists' d0.fs dname = false ∧ Fs.parentIsDir d0.fs dname = true))
+    (hfh1 : d0.faults.lookup ccChecksumFailure = some fhIgnore) (hfh2 : d0.faults.lookup ccCheckLimit = some fhCancel)
+    (hcs1 : cs1.flatten = F.take a) (hne1 : ∀ c ∈ cs1, c ≠ [])
+    (hseg : 0 < seg) (hb : b = a + seg) (hbF : b < F.length)
+    (hk : min (b + seg) F.length + (k - 1) * seg < F.length ∨ k = 0)
+    (hkend : F.length ≤ min (b + seg) F.length + k * seg)
+    (hmis : MismatchOf cks (C03.holeFile F a b F.length) crc) :
+    ∃ d1 d2 d3 d4 d5,
+      stateMachine env (some (.md h false cks F.length (some sname) (some dname) msgs)) d0 = .ok () d1 ∧
+      feed env h cs1 0 d1 = some d2 ∧
+      stateMachine env (some (.fd h b ((F.drop b).take seg))) d2 = .ok () d3 ∧
+      C03.feedSeg env h F seg k (min (b + seg) F.length) d3 = some d4 ∧
+      stateMachine env (some (.eof h ccNoError crc F.length none)) d4 = .ok () d5 ∧
+      CheckWait d5 dname (C03.holeFile F a b F.length) crc rc ⟨h.src, h.seq⟩ cks ⟨env.now, env.cfg.chkMs⟩ 0 ∧
+      (∀ q, q ≠ dname → d5.fs.get q = d0.fs.get q) ∧
+      d5.inds.filter isFinished = d0.inds.filter isFinished ∧
+      d5.flts = [⟨fhIgnore, ⟨h.src, h.seq⟩, ccChecksumFailure, F.length⟩] := by
+  have hab : a < b := by omega
+  obtain ⟨hmd, hR1⟩ := C02_metadata env d0 h rc cks F.length sname dname msgs false ha hidle hq hr hrej hfl hnd hok
+  obtain ⟨d2, hfeed, hR2, hother2, hq2, hfl2, hfin2, hcf2⟩ := C02_tiles env h rc _ cks dname false ha cs1 [] _ hne1 hR1
+  have hfa2 := feed_keeps_faults env h rc _ cks dname false ha cs1 [] _ d2 hne1 hR1 hfeed
+  simp only [List.nil_append, hcs1, List.length_nil] at hfeed hR2
+  obtain ⟨hgap, hR3⟩ := C13_gap_tile_unack env d2 dname F a b seg rc _ cks h false hR2 ha hab hbF hseg
+  obtain ⟨d4, hfs, hR4, hother4, hfin4, hfa4⟩ := C13_tiles_behind_hole_unack env h rc _ cks dname false F a b seg hab
+    hseg ha k (min (b + seg) F.length) _ (by omega) (Nat.min_le_right _ _)
+    (by rcases hk with h1 | h1; exact Or.inr h1; exact Or.inl h1) hR3
+  have hend : min (min (b + seg) F.length + k * seg) F.length = F.length := by omega
+  rw [hend] at hR4
+  have hlenG := C03.holeFile_length F a b F.length (by omega) (by omega) (Nat.le_refl _)
+  have hfa : d4.faults = d0.faults := by
+    rw [hfa4]; show d2.faults = d0.faults
+    rw [hfa2]; rfl
+  obtain ⟨heof, hW⟩ := C13_eof_call_waits env d4 dname (C03.holeFile F a b F.length) crc rc _ cks h hR4 ha hmis hchk
+    (by rw [hfa]; exact hfh1) (by rw [hfa]; exact hfh2)
+  rw [hlenG] at heof hW
+  refine ⟨_, d2, _, d4, _, hmd, hfeed, hgap, hfs, heof, hW, ?_, ?_, ?_⟩
+  · intro q hq'
+    simp only [afterEofWait]
+    rw [hother4 q hq']
+    simp only [afterGapU]
+    rw [Fs.C17.get_set_other _ _ _ _ hq', hother2 q hq']
+    simp [afterMd, Fs.C17.get_set_other _ _ _ _ hq']
+  · simp only [afterEofWait, List.filter_append, hfin4]
+    simp only [afterGapU, List.filter_append, hfin2]
+    have h1 : (afterMd env d0 h rc cks F.length sname dname msgs false).inds.filter isFinished =
+        d0.inds.filter isFinished := by simp [afterMd, isFinished]
+    rw [h1]
+    cases env.cfg.indSegRecv <;> cases env.cfg.indEofRecv <;> simp [isFinished]
+  · simp [afterEofWait, hR4.hflts, hR4.hprog, hlenG]
+
+/-- **Late data before the limit: the transfer completes (whole run).**  Unacknowledged mode, no
+closure.  The EOF overtakes one File Data PDU.  `times` are the expiries of the check timer that pass
+while the PDU is still missing (fewer than the check limit); then the PDU arrives while the timer is
+running; at the next expiry the verification succeeds: the file is byte-identical, the user gets one
+Transaction-Finished (No error, Data complete, File retained), the handler is idle; no Check limit
+fault; one (ignored) checksum failure per unsuccessful verification. -/
+theorem C13_late_data_completes (env : Env) (d0 : DestSt) (h : Hdr) (rc : RemoteCfg) (cks : Nat)
+    (sname dname : String) (msgs : Option (List Msg)) (F crc : List UInt8)
+    (cs1 : List (List UInt8)) (a b seg k : Nat) (times : List Nat) (tL tS : Nat)
+    (ha : Admissible env rc h) (hchk : env.cfg.chkMs ≠ 0)
+    (hidle : d0.state = .idle) (hq : d0.queue = []) (hr : d0.numReady = 0) (hrej : d0.rejects = [])
+    (hfl : d0.flts = []) (hnd : Fs.isDir d0.fs dname = false)
+    (hok : (∃ old, d0.fs.get dname = some (.file old)) ∨
+           (Fs.exists' d0.fs dname = false ∧ Fs.parentIsDir d0.fs dname = true))
+    (hfh1 : d0.faults.lookup ccChecksumFailure = some fhIgnore) (hfh2 : d0.faults.lookup ccCheckLimit = some fhCancel)
+    (hcs1 : cs1.flatten = F.take a) (hne1 : ∀ c ∈ cs1, c ≠ [])
+    (hseg : 0 < seg) (hb : b = a + seg) (hbF : b < F.length)
+    (hk : min (b + seg) F.length + (k - 1) * seg < F.length ∨ k = 0)
+    (hkend : F.length ≤ min (b + seg) F.length + k * seg)
+    (hnull : cks ≠ 15) (hcrc : Checksum.calcChecksum (Checksum.CksType.ofNat cks) F F.length 4096 = .ok crc)
+    (hmis : MismatchOf cks (C03.holeFile F a b F.length) crc)
+    (hexp : C04.Expiring env.cfg.chkMs env.now times) (hlim : times.length < rc.chkLim)
+    (hrun : tL - C04.lastOr env.now times < env.cfg.chkMs) (hS : tS - C04.lastOr env.now times ≥ env.cfg.chkMs) :
+    ∃ d5 d6 d7 d8,
+      (∃ d1 d2 d3 d4,
+        stateMachine env (some (.md h false cks F.length (some sname) (some dname) msgs)) d0 = .ok () d1 ∧
+        feed env h cs1 0 d1 = some d2 ∧
+        stateMachine env (some (.fd h b ((F.drop b).take seg))) d2 = .ok () d3 ∧
+        C03.feedSeg env h F seg k (min (b + seg) F.length) d3 = some d4 ∧
+        stateMachine env (some (.eof h ccNoError crc F.length none)) d4 = .ok () d5) ∧
+      d5.inds.filter isFinished = d0.inds.filter isFinished ∧ d5.state = .busy ∧
+      checkRounds env.cfg times d5 = some d6 ∧
+      stateMachine ⟨env.cfg, tL⟩ (some (.fd h a ((F.drop a).take (b - a)))) d6 = .ok () d7 ∧
+      stateMachine ⟨env.cfg, tS⟩ none d7 = .ok () d8 ∧
+      d8.state = .idle ∧ d8.queue = [] ∧
+      d8.fs.get dname = some (.file F) ∧ (∀ q, q ≠ dname → d8.fs.get q = d0.fs.get q) ∧
+      d8.inds.filter isFinished = d0.inds.filter isFinished ++
+        (if env.cfg.indFinished
+          then [.finished (some ⟨h.src, h.seq⟩) ⟨ccNoError, dcComplete, fsRetained, none⟩] else []) ∧
+      d8.flts = List.replicate (times.length + 1) ⟨fhIgnore, ⟨h.src, h.seq⟩, ccChecksumFailure, F.length⟩ := by
+  obtain ⟨d1, d2, d3, d4, d5, hmd, hfeed, hgap, hfs, heof, hW, hother5, hin5, hfl5⟩ :=
+    C13_run_to_wait env d0 h rc cks sname dname msgs F crc cs1 a b seg k ha hchk hidle hq hr hrej hfl hnd hok hfh1 hfh2
+      hcs1 hne1 hseg hb hbF hk hkend hmis
+  have hlenG := C03.holeFile_length F a b F.length (by omega) (by omega) (Nat.le_refl _)
+  obtain ⟨d6, hrounds, hW6, hfs6, hin6, hfl6⟩ := C13_expiries_below_limit env.cfg dname (C03.holeFile F a b F.length)
+    crc rc ⟨h.src, h.seq⟩ cks hmis times d5 ⟨env.now, env.cfg.chkMs⟩ 0 hW hexp (by omega)
+  obtain ⟨hlate, hW7⟩ := C13_late_tile_call ⟨env.cfg, tL⟩ d6 dname F crc a b rc ⟨h.src, h.seq⟩ cks _ _ h hW6
+    ⟨ha.hdir, ha.hdst, ha.hsrc, ha.hmode⟩ (by omega) (by omega)
+    (by simp [Timer.timedOut]; exact hrun)
+  have hsucc := C13_expiry_success_call ⟨env.cfg, tS⟩ _ dname F crc rc ⟨h.src, h.seq⟩ cks _ _ hW7
+    (by simp [Timer.timedOut]; exact hS) hnull hcrc
+  refine ⟨d5, d6, _, _, ⟨d1, d2, d3, d4, hmd, hfeed, hgap, hfs, heof⟩, hin5, hW.hbusy, hrounds, hlate, hsucc, rfl,
+    hW7.hqueue, ?_, ?_, ?_, ?_⟩
+  · simp [afterSuccess, afterLate, Fs.C17.get_set_same]
+  · intro q hq'
+    simp only [afterSuccess, afterLate]
+    rw [Fs.C17.get_set_other _ _ _ _ hq', hfs6, hother5 q hq']
+  · simp only [afterSuccess, afterLate, List.filter_append, hin6, hin5]
+    cases env.cfg.indSegRecv <;> cases env.cfg.indFinished <;> simp [isFinished]
+  · simp only [afterSuccess, afterLate, hfl6, hfl5, hlenG]
+    rw [List.replicate_succ]; simp
+
+/-- **The data never arrives: Check limit reached exactly at the limit-th expiry (whole run).**  The
+first `limit − 1` expiries (`times`) only count; the limit-th (`tX`) declares Check limit reached,
+the default handler cancels the transaction, the user is told (condition Check limit reached, Data
+incomplete), the handler is idle.  No Transaction-Finished indication before that; one (ignored)
+checksum failure per unsuccessful verification (the EOF call and each of the `limit` expiries). -/
+theorem C13_never_arrives_limit (env : Env) (d0 : DestSt) (h : Hdr) (rc : RemoteCfg) (cks : Nat)
+    (sname dname : String) (msgs : Option (List Msg)) (F crc : List UInt8)
+    (cs1 : List (List UInt8)) (a b seg k : Nat) (times : List Nat) (tX : Nat)
+    (ha : Admissible env rc h) (hchk : env.cfg.chkMs ≠ 0)
+    (hidle : d0.state = .idle) (hq : d0.queue = []) (hr : d0.numReady = 0) (hrej : d0.rejects = [])
+    (hfl : d0.flts = []) (hnd : Fs.isDir d0.fs dname = false)
+    (hok : (∃ old, d0.fs.get dname = some (.file old)) ∨
+           (Fs.exists' d0.fs dname = false ∧ Fs.parentIsDir d0.fs dname = true))
+    (hfh1 : d0.faults.lookup ccChecksumFailure = some fhIgnore) (hfh2 : d0.faults.lookup ccCheckLimit = some fhCancel)
+    (hcs1 : cs1.flatten = F.take a) (hne1 : ∀ c ∈ cs1, c ≠ [])
+    (hseg : 0 < seg) (hb : b = a + seg) (hbF : b < F.length)
+    (hk : min (b + seg) F.length + (k - 1) * seg < F.length ∨ k = 0)
+    (hkend : F.length ≤ min (b + seg) F.length + k * seg)
+    (hmis : MismatchOf cks (C03.holeFile F a b F.length) crc)
+    (hexp : C04.Expiring env.cfg.chkMs env.now times) (hlim : times.length + 1 = rc.chkLim)
+    (hX : tX - C04.lastOr env.now times ≥ env.cfg.chkMs) :
+    ∃ d5 d6 d8,
+      (∃ d1 d2 d3 d4,
+        stateMachine env (some (.md h false cks F.length (some sname) (some dname) msgs)) d0 = .ok () d1 ∧
+        feed env h cs1 0 d1 = some d2 ∧
+        stateMachine env (some (.fd h b ((F.drop b).take seg))) d2 = .ok () d3 ∧
+        C03.feedSeg env h F seg k (min (b + seg) F.length) d3 = some d4 ∧
+        stateMachine env (some (.eof h ccNoError crc F.length none)) d4 = .ok () d5) ∧
+      checkRounds env.cfg times d5 = some d6 ∧
+      d6.state = .busy ∧ d6.inds.filter isFinished = d0.inds.filter isFinished ∧
+      stateMachine ⟨env.cfg, tX⟩ none d6 = .ok () d8 ∧
+      d8.state = .idle ∧ d8.queue = [] ∧
+      d8.inds.filter isFinished = d0.inds.filter isFinished ++
+        (if env.cfg.indFinished
+          then [.finished (some ⟨h.src, h.seq⟩) ⟨ccCheckLimit, dcIncomplete,
+            if rc.disp then fsDiscardedDeliberately else fsRetained, none⟩] else []) ∧
+      d8.flts = List.replicate (rc.chkLim + 1) ⟨fhIgnore, ⟨h.src, h.seq⟩, ccChecksumFailure, F.length⟩ ++
+        [⟨fhCancel, ⟨h.src, h.seq⟩, ccCheckLimit, F.length⟩] := by
+  obtain ⟨d1, d2, d3, d4, d5, hmd, hfeed, hgap, hfs, heof, hW, hother5, hin5, hfl5⟩ :=
+    C13_run_to_wait env d0 h rc cks sname dname msgs F crc cs1 a b seg k ha hchk hidle hq hr hrej hfl hnd hok hfh1 hfh2
+      hcs1 hne1 hseg hb hbF hk hkend hmis
+  have hlenG := C03.holeFile_length F a b F.length (by omega) (by omega) (Nat.le_refl _)
+  obtain ⟨d6, hrounds, hW6, hfs6, hin6, hfl6⟩ := C13_expiries_below_limit env.cfg dname (C03.holeFile F a b F.length)
+    crc rc ⟨h.src, h.seq⟩ cks hmis times d5 ⟨env.now, env.cfg.chkMs⟩ 0 hW hexp (by omega)
+  have hlimit := C13_expiry_limit_call ⟨env.cfg, tX⟩ d6 dname _ crc rc ⟨h.src, h.seq⟩ cks _ _ hW6 hmis
+    (by simp [Timer.timedOut]; exact hX) (by omega)
+  refine ⟨d5, d6, _, ⟨d1, d2, d3, d4, hmd, hfeed, hgap, hfs, heof⟩, hrounds, hW6.hbusy, ?_, hlimit, rfl, hW6.hqueue,
+    ?_, ?_⟩
+  · rw [hin6]; exact hin5
+  · simp only [afterLimit, List.filter_append, hin6, hin5]
+    cases env.cfg.indFinished <;> simp [isFinished]
+  · simp only [afterLimit, hfl6, hfl5, hW6.hprog, hlenG, ← hlim]
+    rw [List.replicate_succ, List.replicate_succ']
+    simp
+
+
+end WholeRuns
+
+/-! ### the hypotheses of the whole-run theorems are satisfiable (non-vacuity) -/
+
+namespace Ex
+open Cfdp.C03.Ex
+
+def F : List UInt8 := [1, 2, 3, 4, 5]
+def hU : Hdr := ⟨.toRecv, .unack, false, false, ⟨1, 2⟩, ⟨2, 2⟩, ⟨7, 2⟩⟩
+
+theorem mismatch : MismatchOf 3 (C03.holeFile F 0 2 F.length) [71, 11, 153, 244] :=
+  ⟨by decide, [208, 98, 120, 207], by decide +kernel, by decide⟩
+
+/-- a 5-byte file in segments of 2; the first tile is late; check limit 3 (`rcD.chkLim`), check
+interval 1000: one expiry passes (1000), the tile arrives at 1500, the expiry at 2000 completes -/
+example : True := by
+  have h := C13_late_data_completes envD d0 hU rcD 3 "/a" "/b" none F [71, 11, 153, 244] [] 0 2 2 1 [1000] 1500 2000
+    ⟨rfl, rfl, by decide, rfl⟩ (by decide) rfl rfl rfl rfl rfl (by decide)
+    (Or.inl ⟨[9], rfl⟩) (by decide) (by decide) rfl (by simp) (by decide) rfl (by decide)
+    (Or.inl (by decide)) (by decide) (by decide) (by decide +kernel) mismatch
+    (by simp [C04.Expiring, envD]) (by decide) (by decide) (by decide)
+  trivial
+
+/-- the same transfer, the tile never arrives: limit 3, expiries at 1000, 2000 and 3000 -/
+example : True := by
+  have h := C13_never_arrives_limit envD d0 hU rcD 3 "/a" "/b" none F [71, 11, 153, 244] [] 0 2 2 1 [1000, 2000] 3000
+    ⟨rfl, rfl, by decide, rfl⟩ (by decide) rfl rfl rfl rfl rfl (by decide)
+    (Or.inl ⟨[9], rfl⟩) (by decide) (by decide) rfl (by simp) (by decide) rfl (by decide)
+    (Or.inl (by decide)) (by decide) mismatch
+    (by simp [C04.Expiring, envD]) (by decide) (by decide)
+  trivial
+
+end Ex
 
 end Cfdp.C13
